@@ -7,7 +7,7 @@ VERIF = os.path.dirname(os.path.dirname(os.path.abspath(__file__)))
 if VERIF not in sys.path:
     sys.path.insert(0, VERIF)
 
-N_SCHEDULES = {"quick": 24, "thorough": 600}
+N_SCHEDULES = {"quick": 40, "thorough": 600}
 
 
 def _prebuild(repo):
@@ -21,6 +21,9 @@ def _prebuild(repo):
 def _one(args):
     repo, sched = args
     from rig import proxy_rig
+    # per worker process (C19 keeps the rig's default): every wait of a C18 schedule is a round trip of
+    # a few milliseconds; 45 s without progress is a standstill (INCONCLUSIVE, or delivery-blocked when it repeats)
+    proxy_rig.WATCHDOG = float(os.environ.get("VERIF_RIG_WATCHDOG", "45"))
     return proxy_rig.run_c18_schedule(repo, sched)
 
 
